@@ -2,11 +2,11 @@
 # Confirm an independently seeded break and run the property's check against it.
 # usage: seedcheck.sh <PID> <agent worktree with SEEDED/> [tier]
 pid=$1; src=$2; tier=${3:-quick}
-dest=/verif/seeded/$pid
+dest=/verif/seeded/$pid${SEED_SUFFIX:-}
 mkdir -p "$dest"
 cp "$src/SEEDED/patch.diff" "$src/SEEDED/demo.py" "$dest/" || exit 2
 [ -f "$src/SEEDED/notes.md" ] && cp "$src/SEEDED/notes.md" "$dest/notes.md"
-work=/tmp/sv_$pid
+work=/tmp/sv_$pid${SEED_SUFFIX:-}
 git -C /repo worktree remove --force "$work" 2>/dev/null
 git -C /repo worktree add -q --detach "$work" HEAD || exit 2
 cd "$work" || exit 2
